@@ -314,7 +314,9 @@ def replay_sv(point, order, nf, qed):
 
 def replay_ome(point, morder, method):
     import numpy as np
-    from eko.evolution_operator import quad_ker as qk
+    import importlib
+
+    qk = importlib.import_module("eko.evolution_operator.quad_ker")
 
     a_s = float(point.get("a_s", 0.02))
     rng = np.random.default_rng(23)
